@@ -11,6 +11,10 @@
 //!   c08.kw              exhaustively every keyword of Table A.1 with generated well-formed operands
 //!   c08.kw.outside      every keyword with too few / too many / wrong operands
 //!   c08.inline          where inline image data ends: bytes after `ID` → real `parse_ops` vs Model/ContentInline
+//!   c08.bytes.ser       the same op sequences → real `serialize_ops` BYTES vs Model/ContentBytes (byte-exact)
+//!   c08.bytes.parse     bytes (the writer's output; token sequences in random layouts: any white-space, comments,
+//!                       omitted separators, `#XX` names, octal string escapes) → real `parse_ops` vs the byte-level loop
+//!   c08.bytes.*.outside non-finite reals / ill-formed statements and damaged bytes (drift only)
 //!   c08.spec            the harness' copy of Table A.1 vs Spec/OperatorTable.lean (every keyword)
 //! Oracles (the real library against the property itself):
 //!   c08.roundtrip       parse_ops(serialize_ops(ops)) == ops with numeric equality on reals
@@ -90,11 +94,15 @@ fn b01(b: bool) -> &'static str {
     if b { "1" } else { "0" }
 }
 
-fn an_inline_image(ctx: &Ctx) -> Op {
+/// an `Op::InlineImage` to plant into sequences (`None` when the library cannot read one: the oracles report that)
+fn an_inline_image(ctx: &Ctx) -> Option<Op> {
     let mut data = vec![];
     print_image(&Some((2, 1, b'A')), &mut data);
     data.push(b'\n');
-    ctx.parse(&data, false).expect("inline image").pop().expect("one op")
+    match ctx.parse(&data, false) {
+        Ok(mut ops) if ops.len() == 1 && matches!(ops[0], Op::InlineImage { .. }) => ops.pop(),
+        _ => None,
+    }
 }
 
 // ---------------------------------------------------------------------------------------------------
@@ -168,8 +176,10 @@ fn gen_ser_case(ctx: &Ctx, seed: u64, name: &str, case: u64, outside: bool, hist
     } else if rng.chance(1, 25) {
         // the serializer rejects inline images
         let i = rng.usize(v.len() + 1);
-        v.insert(i, an_inline_image(ctx));
-        hist("with-inline-image");
+        if let Some(img) = an_inline_image(ctx) {
+            v.insert(i, img);
+            hist("with-inline-image");
+        }
     }
     v
 }
@@ -469,10 +479,13 @@ fn stream_inline(driver: &Driver, ctx: &Ctx, seed: u64, n: u64) -> Stream {
         for _ in 0..rng.usize(8) {
             rest.push(*rng.pick(b"Ax\n\nEEII \r0"));
         }
-        let term: &[u8] = match rng.below(8) {
+        let term: &[u8] = match rng.below(10) {
             0 => b" EI",
             1 => b"\rEI",
             2 => b"\r\nEI",
+            3 => b"\tEI",
+            4 => b" EIx",
+            5 => b"\nEI/",
             _ => b"\nEI",
         };
         st.count(&format!("terminator={:?}", String::from_utf8_lossy(term)));
@@ -510,4 +523,5 @@ fn stream_inline(driver: &Driver, ctx: &Ctx, seed: u64, n: u64) -> Stream {
     st
 }
 
+include!("c08_bytes.rs");
 include!("c08_oracles.rs");
